@@ -18,7 +18,7 @@ Local Open Scope string_scope.
 
 (* ---- the main refinement: for every iteration order o of the Go maps, every
    subcommand, every flag record a command line can produce and every well-formed
-   multi-file skeleton outside the input classes of the five open findings, the
+   multi-file skeleton outside the input classes of the two open findings, the
    run produces exactly the files (names, and types per file in order) the
    declarative reading demands, each named after a source file of the package,
    and the message lists them; or, when the reading demands a failure, it stops
@@ -54,18 +54,58 @@ Print Assumptions C16_type_list_exact.
    and no output file (for it or for any other type of the list) *)
 Theorem C16_bad_name_fails : forall o c fl p T,
   perm_oracle o -> wf_pkgb p = true -> fl_specified fl = true ->
-  In T (fl_types fl) -> nameable c p T = false -> is_local p T = false ->
-  (c = CEnum -> alias_named p T = true \/ consts_of p T <> 0) ->
+  In T (fl_types fl) -> nameable c p T = false ->
   exists d, run o c fl p = Failed d.
 Proof. exact bad_name_fails. Qed.
 Print Assumptions C16_bad_name_fails.
+
+(* ---- (repair of K_enum_missing_silent) an explicitly named type is generated
+   or a diagnostic: never skipped silently *)
+Theorem C16_named_is_generated_or_fatal : forall c p T, wf_pkgb p = true ->
+  make_data c p true T = MGen \/ exists d, make_data c p true T = MFatal d.
+Proof. exact named_is_generated_or_fatal. Qed.
+Print Assumptions C16_named_is_generated_or_fatal.
+
+(* ---- (repair of K_lower_collision / K_filename_case_clash) two named types
+   whose output names coincide (Order / ORDER, or one name twice): a diagnostic
+   and no file; no type is lost silently *)
+Theorem C16_name_clash_fails : forall o c fl p,
+  perm_oracle o -> wf_pkgb p = true -> fl_specified fl = true -> fl_sep fl = true -> fl_file fl = "" ->
+  ~ NoDup (map (fun T => per_type_name c (decl_file p T) T) (fl_types fl)) ->
+  exists d, run o c fl p = Failed d.
+Proof. exact name_clash_fails. Qed.
+Print Assumptions C16_name_clash_fails.
+
+Theorem C16_cli_name_clash : forall o c p L,
+  perm_oracle o -> wf_pkgb p = true -> L <> [] -> (forall T, In T L -> is_ident T = true) ->
+  ~ NoDup (map (fun T => per_type_name c (decl_file p T) T) L) ->
+  exists d, shoot_cli o c ["-type=" ++ join "," L] p = COut (Failed d).
+Proof. exact cli_name_clash. Qed.
+Print Assumptions C16_cli_name_clash.
+
+(* ---- (repair of K_local_type_listed) -file / -type=* list package-level
+   declarations only, whatever is declared inside function bodies *)
+Theorem C16_list_types_top_level_only : forall c fl p T, In T (list_types c fl p) ->
+  exists f t, In f (p_files p) /\ In t (top_specs f) /\ ts_name t = T /\ test_node_list c t = true.
+Proof. exact list_types_top_level_only. Qed.
+Print Assumptions C16_list_types_top_level_only.
+
+(* ---- `-file=f.go -sep`: one file per eligible declaration of f.go; a clash of two names is a diagnostic *)
+Theorem C16_file_mode_sep_exact : forall o c fl p f,
+  perm_oracle o -> wf_pkgb p = true -> fl_specified fl = false -> fl_sep fl = true ->
+  In f (p_files p) -> fl_file fl = f_name f -> ends_with ".go" (f_name f) = true ->
+  let sel := map ts_name (filter (listable c p) (top_specs f)) in
+  let name := fun T => per_type_name c (f_name f) T in
+  (NoDup (map name sel) -> run o c fl p = Done (map (fun T => (name T, [T])) sel) (o _ (map name sel))) /\
+  (~ NoDup (map name sel) -> exists d, run o c fl p = Failed d).
+Proof. exact file_mode_sep_exact. Qed.
+Print Assumptions C16_file_mode_sep_exact.
 
 (* ---- `-file=f.go`: exactly the eligible declarations of f.go, in declaration
    order, all in f.shoot<cmd>.go *)
 Theorem C16_file_mode_exact : forall o c fl p f,
   perm_oracle o -> wf_pkgb p = true -> fl_specified fl = false -> fl_sep fl = false ->
   In f (p_files p) -> fl_file fl = f_name f -> ends_with ".go" (f_name f) = true ->
-  existsb (test_node_list c) (local_specs p) = false ->
   let sel := map ts_name (filter (listable c p) (top_specs f)) in
   run o c fl p = match sel with
                  | [] => Done [] (o _ [])
@@ -80,7 +120,6 @@ Print Assumptions C16_file_mode_exact.
 Theorem C16_star_mode_exact : forall o c fl p,
   perm_oracle o -> wf_pkgb p = true -> fl_specified fl = false -> fl_sep fl = false -> fl_file fl = "" ->
   all_in_one_file fl p <> "" ->
-  existsb (test_node_list c) (local_specs p) = false ->
   let sel := map ts_name (filter (listable c p) (pkg_specs p)) in
   run o c fl p = match sel with
                  | [] => Done [] (o _ [])
@@ -98,7 +137,7 @@ Proof. exact message_lists_every_file. Qed.
 Print Assumptions C16_message_lists_every_file.
 
 (* ---- the code's filters coincide with the declarative eligibility *)
-Theorem C16_generated_iff_nameable : forall c p T, wf_pkgb p = true -> is_local p T = false ->
+Theorem C16_generated_iff_nameable : forall c p T, wf_pkgb p = true ->
   (make_data c p true T = MGen <-> nameable c p T = true).
 Proof. exact generated_iff_nameable. Qed.
 Print Assumptions C16_generated_iff_nameable.
@@ -142,15 +181,13 @@ Print Assumptions C16_cli_type_list.
 
 Theorem C16_cli_bad_name : forall o c p L T,
   perm_oracle o -> wf_pkgb p = true -> (forall T', In T' L -> is_ident T' = true) ->
-  In T L -> nameable c p T = false -> is_local p T = false ->
-  (c = CEnum -> alias_named p T = true \/ consts_of p T <> 0) ->
+  In T L -> nameable c p T = false ->
   exists d, shoot_cli o c ["-type=" ++ join "," L] p = COut (Failed d).
 Proof. exact cli_bad_name. Qed.
 Print Assumptions C16_cli_bad_name.
 
 Theorem C16_cli_file : forall o c p f,
   perm_oracle o -> wf_pkgb p = true -> In f (p_files p) -> ends_with ".go" (f_name f) = true ->
-  existsb (test_node_list c) (local_specs p) = false ->
   let sel := map ts_name (filter (listable c p) (top_specs f)) in
   shoot_cli o c ["-file=" ++ f_name f] p =
   COut (match sel with
@@ -164,7 +201,6 @@ Print Assumptions C16_cli_file.
 Theorem C16_cli_star : forall o c p g,
   perm_oracle o -> wf_pkgb p = true ->
   find (file_has_cmdline ("shoot " ++ sub_name c ++ " -type=*")) (p_files p) = Some g ->
-  existsb (test_node_list c) (local_specs p) = false ->
   let sel := map ts_name (filter (listable c p) (pkg_specs p)) in
   shoot_cli o c ["-type=*"] p =
   COut (match sel with
@@ -200,43 +236,23 @@ Theorem C16_refuted_K_star_no_generate_line : refuted CNew ["-type=*"] w_star k_
 Proof. exact refuted_star_no_generate_line. Qed.
 Print Assumptions C16_refuted_K_star_no_generate_line.
 
-Theorem C16_refuted_K_enum_missing_silent : refuted CEnum ["-type=Color,Nope"] w_enum k_enum_missing_silent.
-Proof. exact refuted_enum_missing_silent. Qed.
-Print Assumptions C16_refuted_K_enum_missing_silent.
-
 Theorem C16_refuted_K_star_sep_file : refuted CNew ["-type=*"; "-sep"] w_starsep k_star_sep_file.
 Proof. exact refuted_star_sep_file. Qed.
 Print Assumptions C16_refuted_K_star_sep_file.
 
-Theorem C16_refuted_K_local_type_listed : refuted CNew ["-file=a.go"] w_local k_local_type_listed.
-Proof. exact refuted_local_type_listed. Qed.
-Print Assumptions C16_refuted_K_local_type_listed.
-
-Theorem C16_refuted_K_lower_collision : refuted CNew ["-type=Order,ORDER"] w_collide k_lower_collision.
-Proof. exact refuted_lower_collision. Qed.
-Print Assumptions C16_refuted_K_lower_collision.
-
-(* two of the classes characterised in general (not only on the witness): *)
+(* the open class K_star_no_generate_line characterised in general (not only on the witness): *)
 
 (* `-type=*` where no //go:generate line ends with the command line: for EVERY
    well-formed package with something eligible, all of it goes to the dot-file
    .shoot<cmd>.go, which is named after no source file; the reading is violated *)
 Theorem C16_star_without_generate_line : forall o c fl p, perm_oracle o -> wf_pkgb p = true ->
   fl_specified fl = false -> fl_sep fl = false -> fl_file fl = "" -> all_in_one_file fl p = "" ->
-  existsb (test_node_list c) (local_specs p) = false -> spec_selection c fl p <> [] ->
+  spec_selection c fl p <> [] ->
   run o c fl p = Done [("." ++ shootcmd c ++ ".go", spec_selection c fl p)] (o _ ["." ++ shootcmd c ++ ".go"]) /\
   anchored c p ("." ++ shootcmd c ++ ".go") = false /\
   meets c p (run o c fl p) (spec c fl p) = false.
 Proof. exact star_without_generate_line. Qed.
 Print Assumptions C16_star_without_generate_line.
-
-(* `shoot enum -type=...,T`: a T that is not eligible, no alias and without typed
-   constants is skipped silently (no diagnostic, no file), whatever the package *)
-Theorem C16_enum_unknown_name_skipped : forall p b T,
-  nameable CEnum p T = false -> alias_named p T = false -> consts_of p T = 0 ->
-  make_data CEnum p b T = MSkip.
-Proof. exact enum_unknown_name_skipped. Qed.
-Print Assumptions C16_enum_unknown_name_skipped.
 
 (* ------------------------------------------------------------ non-vacuity *)
 
@@ -262,6 +278,7 @@ Definition ex_pkg : pkg :=
                          DConst "Color" ["ColorRed"; "ColorBlue"] ] |};
          {| f_name := "zz.go";
             f_decls := [ DType [ts "HTTPServer" false RStruct false []];
+                         DFunc [ts "Loc" false RStruct false []; ts "Order" false RNamed true []];   (* function-local types *)
                          DConst "Name" ["NameA"] ] |} ];
      p_dest := [ts "Order" false RStruct false []; ts "HTTPServer" false RNamed false []] |}.
 
@@ -283,13 +300,14 @@ Proof. split; reflexivity. Qed.
 
 (* wrong kind / `_`-prefixed / missing / alias names: hypotheses of C16_cli_bad_name hold *)
 Example ex_bad_names :
-  map (fun T => (nameable CNew ex_pkg T, is_local ex_pkg T)) ["Color"; "_Hidden"; "Nope"; "OrderAlias"; "Client"]
-  = [(false, false); (false, false); (false, false); (false, false); (false, false)] /\
+  map (nameable CNew ex_pkg) ["Color"; "_Hidden"; "Nope"; "OrderAlias"; "Client"] = [false; false; false; false; false] /\
   shoot_cli id_oracle CNew ["-type=Order,Color"] ex_pkg = COut (Failed DgNotStruct) /\
   shoot_cli id_oracle CNew ["-type=_Hidden"] ex_pkg = COut (Failed DgNotExists) /\
   shoot_cli id_oracle CRest ["-type=Plain"] ex_pkg = COut (Failed DgRestNotExists) /\
   shoot_cli id_oracle CMap ["-type=HTTPServer"] ex_pkg = COut (Failed DgDestNotExists) /\
-  shoot_cli id_oracle CEnum ["-type=Name"] ex_pkg = COut (Failed DgNonIntConst).
+  shoot_cli id_oracle CEnum ["-type=Name"] ex_pkg = COut (Failed DgNonIntConst) /\
+  shoot_cli id_oracle CEnum ["-type=Color,Level"] ex_pkg = COut (Failed DgEnumNone) /\
+  shoot_cli id_oracle CEnum ["-type=Color,Nope"] ex_pkg = COut (Failed DgEnumNone).
 Proof. repeat split; reflexivity. Qed.
 
 (* -file=model.go for the four subcommands (hypotheses of C16_cli_file hold: no local types) *)
